@@ -674,6 +674,51 @@ _PLAIN_DECORATORS = {"property", "staticmethod", "classmethod", "overload", "abs
 _MEMO_DECORATORS = {"lru_cache", "cache", "cached_property", "singledispatch", "singledispatchmethod"}
 
 
+_MUTATORS = ("append", "add", "update", "setdefault", "pop", "popitem", "clear", "remove", "discard", "extend", "insert", "__setitem__", "__delitem__", "appendleft")
+_CONTAINERS = ("dict", "list", "set", "defaultdict", "OrderedDict", "deque", "Counter", "WeakValueDictionary", "WeakKeyDictionary", "WeakSet", "ChainMap")
+
+
+def r_module_state(ctx: "Ctx", rule: str = "R00.M") -> None:
+    """NO-HIDDEN-STATE: the functions this check analysed keep no state in module-level containers or globals.  The rules read a
+    function as depending on its arguments and on the instance it belongs to; a module-level cache (say, answers remembered per
+    `id(obj)`) survives the objects it was filled for, is shared by every pool and session of the process, and makes the function's
+    answer depend on what ran before."""
+    rep = ctx.rep
+    rep.rule(rule, "NO-HIDDEN-STATE: no analysed function inserts into / removes from / re-binds a module-level name of its module (logging "
+                   "objects aside) or declares a global")
+    quals = set(ctx.an._cfgs) | {t for _r, t, _c in ctx.an.inlined_calls}
+    n = 0
+    for q in sorted(quals):
+        fn = ctx.prog.functions.get(q)
+        if fn is None:
+            continue
+        n += 1
+        sc2 = ctx.an.scope(fn)
+
+        def module_name(x: ast.AST) -> Optional[str]:
+            while isinstance(x, (ast.Attribute, ast.Subscript)):
+                x = x.value
+            if isinstance(x, ast.Name) and x.id in fn.module.assigns and x.id not in sc2.defs and x.id not in sc2.params and x.id != "log":
+                return x.id
+            return None
+
+        hits: List[Tuple[ast.AST, str]] = []
+        for node in sc2._own_nodes():
+            if isinstance(node, ast.Global):
+                hits.append((node, "global " + ", ".join(node.names)))
+            elif isinstance(node, (ast.Subscript, ast.Attribute)) and isinstance(node.ctx, (ast.Store, ast.Del)) and module_name(node) is not None:
+                hits.append((node, f"store into module-level `{module_name(node)}`"))
+            elif isinstance(node, ast.Call) and isinstance(node.func, ast.Attribute) and node.func.attr in _MUTATORS and module_name(node.func.value) is not None:
+                mv = fn.module.assigns.get(module_name(node.func.value))
+                if isinstance(mv, (ast.Dict, ast.List, ast.Set)) or (isinstance(mv, ast.Call) and isinstance(mv.func, (ast.Name, ast.Attribute))
+                                                                      and (mv.func.id if isinstance(mv.func, ast.Name) else mv.func.attr) in _CONTAINERS):
+                    hits.append((node, f"`{node.func.attr}` on module-level `{module_name(node.func.value)}`"))
+        for node, how in hits:
+            rep.ob(rule, "an analysed function keeps no state at module level", False, func=fn, construct=node,
+                   detail=f"{how}: shared by every pool / session / call in the process and never tied to the life of the objects it describes")
+    rep.ob(rule, "analysed functions scanned for module-level state", True, construct=f"{n} functions")
+
+
 def r_decorated(ctx: "Ctx", rule: str = "R00.D") -> None:
     """WHAT-RUNS: every function this check analysed is what its callers actually run.  A decorator that replaces the function by a
     wrapper is accepted only when the wrapper is transparent: it runs the function exactly once on every path, with the caller's
@@ -716,6 +761,16 @@ def r_decorated(ctx: "Ctx", rule: str = "R00.D") -> None:
         for x in ast.walk(m.tree):
             if isinstance(x, ast.Attribute) and not isinstance(x.ctx, ast.Load):
                 stores.setdefault(x.attr, []).append((m.relpath, x))
+    # stores of the form `self.<attr> = ...` belong to the class of the method they are written in
+    self_store_class: Dict[int, object] = {}
+    for g_ in ctx.prog.all_functions():
+        c_ = g_.cls if g_.cls is not None else (g_.parent.cls if getattr(g_, "parent", None) is not None else None)
+        sn_ = ctx.an.scope(g_).selfname
+        if c_ is None or sn_ is None:
+            continue
+        for x in ctx.an.scope(g_)._own_nodes():
+            if isinstance(x, ast.Attribute) and not isinstance(x.ctx, ast.Load) and isinstance(x.value, ast.Name) and x.value.id == sn_:
+                self_store_class[id(x)] = c_
     classes = {}
     for q in sorted(quals):
         f = ctx.prog.functions.get(q)
@@ -725,6 +780,9 @@ def r_decorated(ctx: "Ctx", rule: str = "R00.D") -> None:
         if f.kind in ("property", "setter"):
             continue
         for rel, x in stores.get(f.name, []):
+            oc = self_store_class.get(id(x))
+            if oc is not None and not _related(ctx, oc, f.cls):
+                continue  # `self.<name> = ...` inside a class that has nothing to do with this method's class: another object's attribute
             rep.ob(rule, "no analysed method is re-bound after its definition (on the class or on an instance)", False, func=f,
                    construct=f"{rel}:{x.lineno}: {ast.unparse(x)} = ...", detail=f"`{f.name}` is assigned as an attribute: callers may run something else than the method analysed")
     for c in classes.values():
@@ -736,6 +794,20 @@ def r_decorated(ctx: "Ctx", rule: str = "R00.D") -> None:
         bad_meta = [ast.unparse(k.value) for k in c.node.keywords if k.arg == "metaclass" and ast.unparse(k.value).rpartition(".")[2] not in ("ABCMeta",)]
         rep.ob(rule, "classes of analysed methods are not rewritten by a class decorator or a custom metaclass", not bad_dec and not bad_meta, construct=f"class {c.name}",
                detail=", ".join(bad_dec + bad_meta))
+
+
+def _related(ctx: "Ctx", a, b) -> bool:
+    """a and b are the same class or one is an ancestor of the other (within the package)"""
+    def ancestors(c):
+        out, todo = set(), [c]
+        while todo:
+            k = todo.pop()
+            if k.qual in out:
+                continue
+            out.add(k.qual)
+            todo += [ctx.prog.classes[x] for x in k.bases if x in ctx.prog.classes]
+        return out
+    return a.qual in ancestors(b) or b.qual in ancestors(a)
 
 
 def _transparent_wrapper(ctx: "Ctx", dec: FuncInfo, f: FuncInfo) -> Optional[str]:
